@@ -332,7 +332,14 @@ fn configure<R: std::io::Read, T: Spec>(it: &mut TagIterator<R, T>, cfg: &IterCf
     for step in perm {
         match step {
             0 => {
-                let allow = allow_list(cfg);
+                let mut allow = allow_list(cfg);
+                // the list is a list, not a set: some histories name a class twice or in another order
+                match cfg.order {
+                    6 | 7 => allow.reverse(),
+                    8 | 9 => allow.extend(allow_list(cfg)),
+                    10 | 11 => allow.extend(allow_list(cfg).into_iter().take(1)),
+                    _ => {}
+                }
                 if !allow.is_empty() || always {
                     it.allow_errors(&allow);
                 }
